@@ -22,9 +22,11 @@ import (
 	"bytes"
 	"context"
 	"crypto/aes"
+	"crypto/cipher"
 	"encoding/json"
 	"flag"
 	"fmt"
+	"net"
 	"net/netip"
 	"os"
 	"os/exec"
@@ -389,16 +391,57 @@ type clientEnd struct {
 	server netip.AddrPort
 }
 
+// A SOCKS5 UDP session keeps a TCP control connection open; the harness gives
+// it a loopback connection whose other end stays silent.
+var (
+	tcpLn    *net.TCPListener
+	cleanups []func()
+)
+
+func tcpPair() (*net.TCPConn, *net.TCPConn) {
+	if tcpLn == nil {
+		ln, err := net.ListenTCP("tcp4", &net.TCPAddr{IP: net.IPv4(127, 0, 0, 1)})
+		if err != nil {
+			harness.Fatal("loopback TCP listener: %v", err)
+		}
+		tcpLn = ln
+	}
+	c, err := net.DialTCP("tcp4", nil, tcpLn.Addr().(*net.TCPAddr))
+	if err != nil {
+		harness.Fatal("loopback TCP dial: %v", err)
+	}
+	s, err := tcpLn.AcceptTCP()
+	if err != nil {
+		harness.Fatal("loopback TCP accept: %v", err)
+	}
+	return c, s
+}
+
+func runCleanups() {
+	for _, f := range cleanups {
+		f()
+	}
+	cleanups = nil
+}
+
 func newClientEnd(c codec, mtu int, server netip.AddrPort, policy string) *clientEnd {
 	e := &clientEnd{codec: c, server: server}
 	e.cli = udpClientFor(c, mtu, server, policy)
 	var err error
 	if c.Kind == kSocks5 {
 		var ok bool
-		e.info, e.sess, ok, err = direct.C05Socks5Session(bg, e.cli, conn.AddrFromIPPort(server))
+		tc, peer := tcpPair()
+		e.info, e.sess, ok, err = direct.C05Socks5Session(bg, e.cli, tc, conn.AddrFromIPPort(server))
 		if !ok {
 			harness.Fatal("socks5 client has unexpected type %T", e.cli)
 		}
+		closeSess := e.sess.Close
+		cleanups = append(cleanups, func() {
+			if closeSess != nil {
+				closeSess() // expires the control connection's read deadline; the session's goroutine closes it
+			}
+			peer.Close()
+		})
 	} else {
 		e.info, e.sess, err = e.cli.NewSession(bg)
 	}
@@ -522,26 +565,45 @@ func (s *serverEnd) packerFor(unp zerocopy.ServerUnpacker) zerocopy.ServerPacker
 // extensible identity headers: decrypt the separate header with the relay's
 // iPSK, decrypt the first identity header, require that it names the next
 // iPSK, re-encrypt the separate header with the next iPSK and drop the header.
+type peelKeys struct {
+	blocks   []cipher.Block
+	hashes   [][16]byte
+	sep, eih [16]byte
+}
+
+var peelCache = map[string]*peelKeys{}
+
 func peel(c codec, pkt []byte) ([]byte, error) {
+	pk := peelCache[c.Name]
+	if pk == nil {
+		pk = &peelKeys{}
+		for i := 0; i < c.EIH; i++ {
+			b, err := aes.NewCipher(iPSK(c, i))
+			if err != nil {
+				return nil, err
+			}
+			pk.blocks = append(pk.blocks, b)
+			pk.hashes = append(pk.hashes, ss2022.PSKHash(iPSK(c, i)))
+		}
+		peelCache[c.Name] = pk
+	}
 	for i := 0; i < c.EIH-1; i++ {
 		if len(pkt) < 32 {
 			return nil, fmt.Errorf("packet of %d bytes has no identity header %d", len(pkt), i)
 		}
-		cur, _ := aes.NewCipher(iPSK(c, i))
-		next, _ := aes.NewCipher(iPSK(c, i+1))
-		var sep, eih [16]byte
+		cur, next := pk.blocks[i], pk.blocks[i+1]
+		sep, eih := &pk.sep, &pk.eih
 		cur.Decrypt(sep[:], pkt[:16])
 		cur.Decrypt(eih[:], pkt[16:32])
 		for j := range eih {
 			eih[j] ^= sep[j]
 		}
-		if eih != ss2022.PSKHash(iPSK(c, i+1)) {
+		if *eih != pk.hashes[i+1] {
 			return nil, fmt.Errorf("identity header %d does not carry the hash of iPSK %d", i, i+1)
 		}
-		out := make([]byte, len(pkt)-16)
-		next.Encrypt(out[:16], sep[:])
-		copy(out[16:], pkt[32:])
-		pkt = out
+		// in place: the consumed identity header's slot takes the re-encrypted separate header
+		next.Encrypt(pkt[16:32], sep[:])
+		pkt = pkt[16:]
 	}
 	return pkt, nil
 }
@@ -651,9 +713,14 @@ var portSets = map[string][]uint16{
 	"one":   {53},
 }
 
+var lensBuf []int
+
+// lensFor returns the payload lengths of a unit for a maximum payload; the
+// result is valid until the next call.
 func lensFor(spec string, maxP int) []int {
 	hi := max(maxP+2, 0)
-	var out []int
+	out := lensBuf[:0]
+	defer func() { lensBuf = out[:0] }()
 	if k, ok := strings.CutPrefix(spec, "edges:"); ok {
 		var n int
 		fmt.Sscanf(k, "%d", &n)
@@ -712,14 +779,31 @@ type runner struct {
 	ord     int64 // ordinal of the current case within the unit
 	stopAt  int64 // replay: stop after this ordinal (-1: run everything)
 	verbose bool
-	curCase string
-	class   string // address kind : port of the current case
-	refused string // outcome name of an expected refusal at the current packer
+	cs      caseDesc
+	classes map[[2]string]int64
+	// the address of the current case (for reports)
+	wantTarget conn.Addr
+	wantSrc    netip.AddrPort
+	class      string // address kind : port of the current case
+	refused    string // outcome name of an expected refusal at the current packer
+}
+
+// caseDesc is the current case; it is formatted only when something is reported.
+type caseDesc struct {
+	what string // "target" | "source"
+	ak   akind
+	port uint16
+	pl   int
+	pad  int
+}
+
+func (c caseDesc) String() string {
+	return fmt.Sprintf("%s=%s port=%d payloadLen=%d pad=%s", c.what, c.ak, c.port, c.pl, padName(c.pad))
 }
 
 func (r *runner) outcome(class, o string) {
 	r.res.Outcomes[o]++
-	r.res.Classes[class+"|"+o]++
+	r.classes[[2]string{class, o}]++
 }
 
 func (r *runner) violate(sig string, what func() string) {
@@ -728,8 +812,8 @@ func (r *runner) violate(sig string, what func() string) {
 		return
 	}
 	r.seen[sig] = true
-	w := fmt.Sprintf("%s; unit {%s}; case {%s}", what(), r.u, r.curCase)
-	r.res.Viols = append(r.res.Viols, vrec{Sig: sig, What: w, Replay: map[string]any{"tier": r.tier, "unit": r.u, "ordinal": r.ord, "case": r.curCase, "signature": sig}})
+	w := fmt.Sprintf("%s; unit {%s}; case {%s}", what(), r.u, r.cs)
+	r.res.Viols = append(r.res.Viols, vrec{Sig: sig, What: w, Replay: map[string]any{"tier": r.tier, "unit": r.u, "ordinal": r.ord, "case": r.cs.String(), "signature": sig}})
 	if r.verbose {
 		fmt.Printf("  observed: [%s] %s\n", sig, w)
 	}
@@ -744,21 +828,20 @@ func (r *runner) done() bool { return r.stopAt >= 0 && r.ord > r.stopAt }
 // need* are the unpadded header sizes, maxSize the reference MTU bound, owned*
 // the headroom the packer declared.  It returns false when the packet must not
 // be handed to the peer.
-func (r *runner) checkPacked(where, family string, b []byte, res packRes, ps, pl, needFront, needRear, maxSize int, hr zerocopy.Headroom, prevA, prevZ int) bool {
+func (r *runner) checkPacked(where, family string, b []byte, res packRes, ps, pl, needFront, needRear, maxSize int, hr zerocopy.Headroom, prevZ int) bool {
 	sig := func(shape string) string { return where + "/" + shape + "/packer=" + family }
 	fits := needFront+pl+needRear <= maxSize
-	// memory the packer does not own: everything further than its declared
-	// headroom from the payload, except what the previous stage legitimately wrote
-	ownedA, ownedZ := ps-hr.Front, ps+pl+hr.Rear
-	checkOutside := func(a, z int) {
-		a, z = min(a, prevA), max(z, prevZ)
-		if !intact(b, 0, a) || !intact(b, z, len(b)) {
-			i := firstDiff(b, 0, a)
-			if i < 0 {
-				i = firstDiff(b, z, len(b))
-			}
-			r.violate(sig("wrote-outside-owned-region"), func() string {
-				return fmt.Sprintf("byte %d of the %d-byte buffer changed; the packer may use [%d,%d) (payload [%d,%d) -/+ headroom %d/%d) and returned packet [%d,%d) err=%v", i, len(b), ownedA, ownedZ, ps, ps+pl, hr.Front, hr.Rear, res.start, res.start+res.len, res.err)
+	// PackInPlace(b, ..., payloadStart, payloadLen) may use everything in front of
+	// the payload (ss2022 pads into whatever room there is) and its declared rear
+	// headroom behind it; nothing further behind, except where the previous stage
+	// of a relay legitimately wrote
+	ownedZ := ps + pl + hr.Rear
+	checkOutside := func(z int) {
+		z = max(z, prevZ)
+		if !intact(b, z, len(b)) {
+			i := firstDiff(b, z, len(b))
+			r.violate(sig("wrote-behind-declared-rear-headroom"), func() string {
+				return fmt.Sprintf("byte %d of the %d-byte buffer changed; payload [%d,%d), declared rear headroom %d, returned packet [%d,%d) err=%v", i, len(b), ps, ps+pl, hr.Rear, res.start, res.start+res.len, res.err)
 			})
 		}
 	}
@@ -769,7 +852,7 @@ func (r *runner) checkPacked(where, family string, b []byte, res packRes, ps, pl
 		return false
 	}
 	if res.err != nil {
-		checkOutside(ownedA, ownedZ)
+		checkOutside(ownedZ)
 		if fits {
 			r.violate(sig("fitting-payload-refused"), func() string {
 				return fmt.Sprintf("PackInPlace refused (%v) a payload of %d bytes whose unpadded packet is %d <= limit %d; %d bytes were free in front of the payload, %d needed", res.err, pl, needFront+pl+needRear, maxSize, ps, needFront)
@@ -803,17 +886,17 @@ func (r *runner) checkPacked(where, family string, b []byte, res packRes, ps, pl
 		})
 		return false
 	}
-	checkOutside(min(ownedA, res.start), max(ownedZ, res.start+res.len))
-	if res.start < ownedA || res.start+res.len > ownedZ {
-		r.violate(sig("packet-outside-declared-headroom"), func() string {
-			return fmt.Sprintf("packet [%d,%d) leaves the declared headroom region [%d,%d)", res.start, res.start+res.len, ownedA, ownedZ)
+	checkOutside(max(ownedZ, res.start+res.len))
+	if needRear > hr.Rear {
+		r.violate(sig("declared-rear-headroom-too-small"), func() string {
+			return fmt.Sprintf("the packet needs %d bytes behind the payload, the packer declares %d", needRear, hr.Rear)
 		})
 	}
 	return true
 }
 
 // checkUnpacked validates a peer's view of a packet placed at b[at:at+n].
-func (r *runner) checkUnpacked(where, family string, b []byte, res unpackRes, at, n, pl int, addrOK bool, gotAddr, wantAddr string) bool {
+func (r *runner) checkUnpacked(where, family string, b []byte, res unpackRes, at, n, pl int, addrOK bool) bool {
 	sig := func(shape string) string { return where + "/" + shape + "/unpacker=" + family }
 	if res.panic != "" {
 		r.violate(sig("unpack-panic"), func() string { return "UnpackInPlace panicked: " + res.panic })
@@ -850,7 +933,10 @@ func (r *runner) checkUnpacked(where, family string, b []byte, res unpackRes, at
 	}
 	if !addrOK {
 		r.violate(sig("address-changed"), func() string {
-			return fmt.Sprintf("address %s came out as %s", wantAddr, gotAddr)
+			if res.src.IsValid() {
+				return fmt.Sprintf("address %s came out as %s", r.wantSrc, res.src)
+			}
+			return fmt.Sprintf("address %s came out as %s", r.wantTarget, res.target)
 		})
 		return false
 	}
@@ -894,6 +980,7 @@ func (r *runner) runAC2S() {
 		nf, nr := refC2S(c, ak.wireLen())
 		for _, port := range portSets[u.Ports] {
 			target := ak.connAddr(port)
+			r.wantTarget = target
 			dest := server
 			if c.Kind == kDirect {
 				dest = target.IPPort()
@@ -901,69 +988,75 @@ func (r *runner) runAC2S() {
 			maxSize := refMax(u.MTU, dest.Addr())
 			r.class = fmt.Sprintf("%s:%d", ak, port)
 			class := r.class
-			for _, pl := range lensFor(u.Lens, maxSize-nf-nr) {
-				r.padLoop(func() int {
-					r.ord++
-					if r.done() {
-						return 0
-					}
-					r.res.Cases++
-					hook.calls, hook.n = 0, 0
-					r.curCase = fmt.Sprintf("target=%s port=%d payloadLen=%d pad=%s", ak, port, pl, padName(hook.choice))
-					ps := psFor(u.PS, nf, hr.Front, u.MTU)
-					if ps < nf {
-						r.violate("codec-c2s/declared-headroom-too-small/packer="+c.Family, func() string {
-							return fmt.Sprintf("declared front headroom %d < %d bytes the header needs", hr.Front, nf)
-						})
-						return 0
-					}
-					b := canaryBuf(scratchA, ps+pl+hr.Rear)
-					copy(b[ps:], payloadRef[:pl])
-					res := clientPack(ce.sess.Packer, b, target, ps, pl)
-					r.res.Ops++
-					consulted := 0
-					if hook.calls > 0 {
-						consulted = hook.n
-					}
-					if !r.checkPacked("codec-c2s", c.Family, b, res, ps, pl, nf, nr, maxSize, hr, ps, ps+pl) {
+			var pl int
+			oneCase := func() int {
+				r.ord++
+				if r.done() {
+					return 0
+				}
+				r.res.Cases++
+				hook.calls, hook.n = 0, 0
+				r.cs = caseDesc{"target", ak, port, pl, hook.choice}
+				ps := psFor(u.PS, nf, hr.Front, u.MTU)
+				if ps < nf {
+					r.violate("codec-c2s/declared-headroom-too-small/packer="+c.Family, func() string {
+						return fmt.Sprintf("declared front headroom %d < %d bytes the header needs", hr.Front, nf)
+					})
+					return 0
+				}
+				b := canaryBuf(scratchA, ps+pl+hr.Rear)
+				copy(b[ps:], payloadRef[:pl])
+				res := clientPack(ce.sess.Packer, b, target, ps, pl)
+				r.res.Ops++
+				consulted := 0
+				if hook.calls > 0 {
+					consulted = hook.n
+				}
+				if !r.checkPacked("codec-c2s", c.Family, b, res, ps, pl, nf, nr, maxSize, hr, ps+pl) {
+					return consulted
+				}
+				if !sameAddrPort(dest, res.dest) || (c.Kind != kDirect && res.dest != server) {
+					r.violate("codec-c2s/destination-wrong/packer="+c.Family, func() string {
+						return fmt.Sprintf("packet addressed to %s, expected %s", res.dest, dest)
+					})
+					return consulted
+				}
+				if c.Kind == kDirect {
+					if res.start != ps || res.len != pl || !bytes.Equal(b[ps:ps+pl], payloadRef[:pl]) {
+						r.violate("codec-c2s/payload-changed/packer=direct", func() string { return "a direct packet is not the payload itself" })
 						return consulted
 					}
-					if !sameAddrPort(dest, res.dest) || (c.Kind != kDirect && res.dest != server) {
-						r.violate("codec-c2s/destination-wrong/packer="+c.Family, func() string {
-							return fmt.Sprintf("packet addressed to %s, expected %s", res.dest, dest)
-						})
-						return consulted
-					}
-					if c.Kind == kDirect {
-						if res.start != ps || res.len != pl || !bytes.Equal(b[ps:ps+pl], payloadRef[:pl]) {
-							r.violate("codec-c2s/payload-changed/packer=direct", func() string { return "a direct packet is not the payload itself" })
-							return consulted
-						}
-						r.outcome(class, "roundtrip-ok")
-						r.sample(pl, maxSize-nf-nr, res, nil)
-						return consulted
-					}
-					// the peer: packet crosses the network into the server's receive buffer
-					pkt := b[res.start : res.start+res.len]
-					if c.EIH > 1 {
-						var err error
-						pkt, err = peel(c, pkt)
-						if err != nil {
-							r.violate("codec-c2s/identity-headers-wrong/packer=ss2022", func() string { return err.Error() })
-							return consulted
-						}
-					}
-					const at = 5
-					pb := canaryBuf(scratchB, at+len(pkt))
-					copy(pb[at:], pkt)
-					ur := serverUnpack(se, pb, from, at, len(pkt))
-					r.res.Ops += int64(ur.ops)
-					if r.checkUnpacked("codec-c2s", c.Family, pb, ur, at, len(pkt), pl, ur.err == nil && ur.panic == "" && sameConnAddr(target, ur.target), ur.target.String(), target.String()) {
-						r.outcome(class, "roundtrip-ok")
-						r.sample(pl, maxSize-nf-nr, res, nil)
+					r.outcome(class, "roundtrip-ok")
+					if mp := maxSize - nf - nr; r.res.Sample == nil && pl == mp {
+						r.sample(pl, mp, res, nil)
 					}
 					return consulted
-				})
+				}
+				// the peer: packet crosses the network into the server's receive buffer
+				pkt := b[res.start : res.start+res.len]
+				if c.EIH > 1 {
+					var err error
+					pkt, err = peel(c, pkt)
+					if err != nil {
+						r.violate("codec-c2s/identity-headers-wrong/packer=ss2022", func() string { return err.Error() })
+						return consulted
+					}
+				}
+				const at = 5
+				pb := canaryBuf(scratchB, at+len(pkt))
+				copy(pb[at:], pkt)
+				ur := serverUnpack(se, pb, from, at, len(pkt))
+				r.res.Ops += int64(ur.ops)
+				if r.checkUnpacked("codec-c2s", c.Family, pb, ur, at, len(pkt), pl, ur.err == nil && ur.panic == "" && sameConnAddr(target, ur.target)) {
+					r.outcome(class, "roundtrip-ok")
+					if mp := maxSize - nf - nr; r.res.Sample == nil && pl == mp {
+						r.sample(pl, mp, res, nil)
+					}
+				}
+				return consulted
+			}
+			for _, pl = range lensFor(u.Lens, maxSize-nf-nr) {
+				r.padLoop(oneCase)
 				if r.done() {
 					return
 				}
@@ -977,7 +1070,7 @@ func (r *runner) sample(pl, maxP int, res packRes, extra map[string]any) {
 	if r.res.Sample != nil || pl != maxP {
 		return
 	}
-	r.res.Sample = map[string]any{"unit": r.u.String(), "case": r.curCase, "max_payload_by_reference": maxP, "packet_start": res.start, "packet_len": res.len, "result": "round trip identical, packet within limit, canary intact"}
+	r.res.Sample = map[string]any{"unit": r.u.String(), "case": r.cs.String(), "max_payload_by_reference": maxP, "packet_start": res.start, "packet_len": res.len, "result": "round trip identical, packet within limit, canary intact"}
 	for k, v := range extra {
 		r.res.Sample[k] = v
 	}
@@ -1042,60 +1135,65 @@ func (r *runner) runAS2C() {
 		nf, nr := refS2C(c, ak.wireLen())
 		for _, port := range portSets[u.Ports] {
 			src := netip.AddrPortFrom(ak.ip(), port)
+			r.wantSrc = src
 			r.class = fmt.Sprintf("%s:%d", ak, port)
 			class := r.class
-			for _, pl := range lensFor(u.Lens, maxSize-nf-nr) {
-				r.padLoop(func() int {
-					r.ord++
-					if r.done() {
+			var pl int
+			oneCase := func() int {
+				r.ord++
+				if r.done() {
+					return 0
+				}
+				r.res.Cases++
+				hook.calls, hook.n = 0, 0
+				r.cs = caseDesc{"source", ak, port, pl, hook.choice}
+				const at = 5
+				var pkt []byte
+				var res packRes
+				consulted := 0
+				from := server
+				if c.Kind == kDirect {
+					// no server packer: the packet is the payload, received from src itself
+					if pl > maxSize {
+						r.outcome(class, "refused-too-big")
 						return 0
 					}
-					r.res.Cases++
-					hook.calls, hook.n = 0, 0
-					r.curCase = fmt.Sprintf("source=%s port=%d payloadLen=%d pad=%s", ak, port, pl, padName(hook.choice))
-					const at = 5
-					var pkt []byte
-					var res packRes
-					consulted := 0
-					from := server
-					if c.Kind == kDirect {
-						// no server packer: the packet is the payload, received from src itself
-						if pl > maxSize {
-							r.outcome(class, "refused-too-big")
-							return 0
-						}
-						pkt, from = payloadRef[:pl], src
-						res = packRes{start: 0, len: pl}
-					} else {
-						ps := psFor(u.PS, nf, hr.Front, u.MTU)
-						if ps < nf {
-							r.violate("codec-s2c/declared-headroom-too-small/packer="+c.Family, func() string {
-								return fmt.Sprintf("declared front headroom %d < %d bytes the header needs", hr.Front, nf)
-							})
-							return 0
-						}
-						b := canaryBuf(scratchA, ps+pl+hr.Rear)
-						copy(b[ps:], payloadRef[:pl])
-						res = serverPack(sp, b, src, ps, pl, zerocopy.MaxPacketSizeForAddr(u.MTU, client.Addr()))
-						r.res.Ops++
-						if hook.calls > 0 {
-							consulted = hook.n
-						}
-						if !r.checkPacked("codec-s2c", c.Family, b, res, ps, pl, nf, nr, maxSize, hr, ps, ps+pl) {
-							return consulted
-						}
-						pkt = b[res.start : res.start+res.len]
+					pkt, from = payloadRef[:pl], src
+					res = packRes{start: 0, len: pl}
+				} else {
+					ps := psFor(u.PS, nf, hr.Front, u.MTU)
+					if ps < nf {
+						r.violate("codec-s2c/declared-headroom-too-small/packer="+c.Family, func() string {
+							return fmt.Sprintf("declared front headroom %d < %d bytes the header needs", hr.Front, nf)
+						})
+						return 0
 					}
-					pb := canaryBuf(scratchB, at+len(pkt))
-					copy(pb[at:], pkt)
-					ur := clientUnpack(ce.sess.Unpacker, pb, from, at, len(pkt))
+					b := canaryBuf(scratchA, ps+pl+hr.Rear)
+					copy(b[ps:], payloadRef[:pl])
+					res = serverPack(sp, b, src, ps, pl, zerocopy.MaxPacketSizeForAddr(u.MTU, client.Addr()))
 					r.res.Ops++
-					if r.checkUnpacked("codec-s2c", c.Family, pb, ur, at, len(pkt), pl, sameAddrPort(src, ur.src), ur.src.String(), src.String()) {
-						r.outcome(class, "roundtrip-ok")
-						r.sample(pl, maxSize-nf-nr, res, nil)
+					if hook.calls > 0 {
+						consulted = hook.n
 					}
-					return consulted
-				})
+					if !r.checkPacked("codec-s2c", c.Family, b, res, ps, pl, nf, nr, maxSize, hr, ps+pl) {
+						return consulted
+					}
+					pkt = b[res.start : res.start+res.len]
+				}
+				pb := canaryBuf(scratchB, at+len(pkt))
+				copy(pb[at:], pkt)
+				ur := clientUnpack(ce.sess.Unpacker, pb, from, at, len(pkt))
+				r.res.Ops++
+				if r.checkUnpacked("codec-s2c", c.Family, pb, ur, at, len(pkt), pl, sameAddrPort(src, ur.src)) {
+					r.outcome(class, "roundtrip-ok")
+					if mp := maxSize - nf - nr; r.res.Sample == nil && pl == mp {
+						r.sample(pl, mp, res, nil)
+					}
+				}
+				return consulted
+			}
+			for _, pl = range lensFor(u.Lens, maxSize-nf-nr) {
+				r.padLoop(oneCase)
 				if r.done() {
 					return
 				}
@@ -1220,11 +1318,12 @@ func (r *runner) runBUp(tierCodecs []codec) {
 		cnf, cnr := refC2S(C, ak.wireLen())
 		for _, port := range portSets[u.Ports] {
 			target := ak.connAddr(port)
+			r.wantTarget = target
 			R := w.relay(target, false)
 			L := R.layout
 			if L.BufSize < L.FrontHeadroom+L.RecvSize || L.FrontHeadroom < 0 {
 				r.ord++
-				r.curCase = fmt.Sprintf("target=%s port=%d", ak, port)
+				r.cs = caseDesc{"target", ak, port, -1, 0}
 				r.violate("relay-uplink/buffer-layout-inconsistent", func() string {
 					return fmt.Sprintf("%s: front headroom %d + receive size %d do not fit the %d-byte packet buffer", pair, L.FrontHeadroom, L.RecvSize, L.BufSize)
 				})
@@ -1242,91 +1341,97 @@ func (r *runner) runBUp(tierCodecs []codec) {
 			}
 			r.class = fmt.Sprintf("%s:%d", ak, port)
 			class := r.class
-			for _, pl := range lensFor(u.Lens, maxP) {
-				r.padLoop(func() int {
-					r.ord++
-					if r.done() {
-						return 0
-					}
-					r.res.Cases++
-					r.curCase = fmt.Sprintf("target=%s port=%d payloadLen=%d pad=%s", ak, port, pl, padName(hook.choice))
-					// 1. the downstream client sends
-					var pkt []byte
-					if S.Kind == kDirect {
-						pkt = payloadRef[:pl]
-					} else {
-						dhr := w.D.info.PackerHeadroom
-						db := canaryBuf(scratchC, dhr.Front+pl+dhr.Rear)
-						copy(db[dhr.Front:], payloadRef[:pl])
-						var dres packRes
-						withHookChoice(1, func() { dres = clientPack(w.D.sess.Packer, db, target, dhr.Front, pl) })
-						r.res.Ops++
-						if dres.err != nil || dres.panic != "" {
-							r.outcome(class, "ingress-not-sendable")
-							return 0
-						}
-						pkt = db[dres.start : dres.start+dres.len]
-					}
-					n := len(pkt)
-					if n > L.RecvSize {
-						r.outcome(class, "ingress-truncated-by-recv-size")
-						return 0
-					}
-					// 2. the relay receives into its packet buffer and unpacks in place
-					b := canaryBuf(scratchA, L.BufSize)
-					copy(b[L.FrontHeadroom:], pkt)
-					ur := serverUnpack(R, b, w.dsAddr, L.FrontHeadroom, n)
-					r.res.Ops += int64(ur.ops)
-					wantTarget := target
-					if !r.checkUnpacked("relay-uplink", S.Family, b, ur, L.FrontHeadroom, n, pl, ur.err == nil && ur.panic == "" && sameConnAddr(wantTarget, ur.target), ur.target.String(), target.String()) {
-						return 0
-					}
-					// 3. the relay's client packs in place
-					hook.calls, hook.n = 0, 0
-					res := clientPack(w.Cc.sess.Packer, b, ur.target, ur.ps, ur.pl)
+			var pl int
+			oneCase := func() int {
+				r.ord++
+				if r.done() {
+					return 0
+				}
+				r.res.Cases++
+				r.cs = caseDesc{"target", ak, port, pl, hook.choice}
+				// 1. the downstream client sends
+				var pkt []byte
+				if S.Kind == kDirect {
+					pkt = payloadRef[:pl]
+				} else {
+					dhr := w.D.info.PackerHeadroom
+					db := canaryBuf(scratchC, dhr.Front+pl+dhr.Rear)
+					copy(db[dhr.Front:], payloadRef[:pl])
+					var dres packRes
+					withHookChoice(1, func() { dres = clientPack(w.D.sess.Packer, db, target, dhr.Front, pl) })
 					r.res.Ops++
-					consulted := 0
-					if hook.calls > 0 {
-						consulted = hook.n
+					if dres.err != nil || dres.panic != "" {
+						r.outcome(class, "ingress-not-sendable")
+						return 0
 					}
-					if !r.checkPacked("relay-uplink", C.Family, b, res, ur.ps, ur.pl, cnf, cnr, cMax, cliHR, L.FrontHeadroom, L.FrontHeadroom+n) {
+					pkt = db[dres.start : dres.start+dres.len]
+				}
+				n := len(pkt)
+				if n > L.RecvSize {
+					r.outcome(class, "ingress-truncated-by-recv-size")
+					return 0
+				}
+				// 2. the relay receives into its packet buffer and unpacks in place
+				b := canaryBuf(scratchA, L.BufSize)
+				copy(b[L.FrontHeadroom:], pkt)
+				ur := serverUnpack(R, b, w.dsAddr, L.FrontHeadroom, n)
+				r.res.Ops += int64(ur.ops)
+				wantTarget := target
+				if !r.checkUnpacked("relay-uplink", S.Family, b, ur, L.FrontHeadroom, n, pl, ur.err == nil && ur.panic == "" && sameConnAddr(wantTarget, ur.target)) {
+					return 0
+				}
+				// 3. the relay's client packs in place
+				hook.calls, hook.n = 0, 0
+				res := clientPack(w.Cc.sess.Packer, b, ur.target, ur.ps, ur.pl)
+				r.res.Ops++
+				consulted := 0
+				if hook.calls > 0 {
+					consulted = hook.n
+				}
+				if !r.checkPacked("relay-uplink", C.Family, b, res, ur.ps, ur.pl, cnf, cnr, cMax, cliHR, L.FrontHeadroom+n) {
+					return consulted
+				}
+				if !sameAddrPort(upDest, res.dest) {
+					r.violate("relay-uplink/destination-wrong/packer="+C.Family, func() string {
+						return fmt.Sprintf("packet addressed to %s, expected %s", res.dest, upDest)
+					})
+					return consulted
+				}
+				// 4. the upstream server unpacks
+				out := b[res.start : res.start+res.len]
+				if C.Kind == kDirect {
+					if !bytes.Equal(out, payloadRef[:pl]) {
+						r.violate("relay-uplink/payload-changed/packer=direct", func() string { return "the forwarded packet is not the payload" })
 						return consulted
 					}
-					if !sameAddrPort(upDest, res.dest) {
-						r.violate("relay-uplink/destination-wrong/packer="+C.Family, func() string {
-							return fmt.Sprintf("packet addressed to %s, expected %s", res.dest, upDest)
-						})
-						return consulted
-					}
-					// 4. the upstream server unpacks
-					out := b[res.start : res.start+res.len]
-					if C.Kind == kDirect {
-						if !bytes.Equal(out, payloadRef[:pl]) {
-							r.violate("relay-uplink/payload-changed/packer=direct", func() string { return "the forwarded packet is not the payload" })
-							return consulted
-						}
-						r.outcome(class, "relayed-ok")
-						r.sample(pl, min(maxP, cMax-cnf-cnr), res, map[string]any{"relay_buffer": fmt.Sprintf("front %d, recv %d, size %d", L.FrontHeadroom, L.RecvSize, L.BufSize)})
-						return consulted
-					}
-					if C.EIH > 1 {
-						var err error
-						if out, err = peel(C, out); err != nil {
-							r.violate("relay-uplink/identity-headers-wrong/packer=ss2022", func() string { return err.Error() })
-							return consulted
-						}
-					}
-					const at = 3
-					pb := canaryBuf(scratchB, at+len(out))
-					copy(pb[at:], out)
-					ur2 := serverUnpack(w.U, pb, w.natAddr, at, len(out))
-					r.res.Ops += int64(ur2.ops)
-					if r.checkUnpacked("relay-uplink-peer", C.Family, pb, ur2, at, len(out), pl, ur2.err == nil && ur2.panic == "" && sameConnAddr(target, ur2.target), ur2.target.String(), target.String()) {
-						r.outcome(class, "relayed-ok")
-						r.sample(pl, min(maxP, cMax-cnf-cnr), res, map[string]any{"relay_buffer": fmt.Sprintf("front %d, recv %d, size %d", L.FrontHeadroom, L.RecvSize, L.BufSize)})
+					r.outcome(class, "relayed-ok")
+					if mp := min(maxP, cMax-cnf-cnr); r.res.Sample == nil && pl == mp {
+						r.sample(pl, mp, res, map[string]any{"relay_buffer": fmt.Sprintf("front %d, recv %d, size %d", L.FrontHeadroom, L.RecvSize, L.BufSize)})
 					}
 					return consulted
-				})
+				}
+				if C.EIH > 1 {
+					var err error
+					if out, err = peel(C, out); err != nil {
+						r.violate("relay-uplink/identity-headers-wrong/packer=ss2022", func() string { return err.Error() })
+						return consulted
+					}
+				}
+				const at = 3
+				pb := canaryBuf(scratchB, at+len(out))
+				copy(pb[at:], out)
+				ur2 := serverUnpack(w.U, pb, w.natAddr, at, len(out))
+				r.res.Ops += int64(ur2.ops)
+				if r.checkUnpacked("relay-uplink-peer", C.Family, pb, ur2, at, len(out), pl, ur2.err == nil && ur2.panic == "" && sameConnAddr(target, ur2.target)) {
+					r.outcome(class, "relayed-ok")
+					if mp := min(maxP, cMax-cnf-cnr); r.res.Sample == nil && pl == mp {
+						r.sample(pl, mp, res, map[string]any{"relay_buffer": fmt.Sprintf("front %d, recv %d, size %d", L.FrontHeadroom, L.RecvSize, L.BufSize)})
+					}
+				}
+				return consulted
+			}
+			for _, pl = range lensFor(u.Lens, maxP) {
+				r.padLoop(oneCase)
 				if r.done() {
 					return
 				}
@@ -1394,84 +1499,91 @@ func (r *runner) runBDown(tierCodecs []codec) {
 		snf, snr := refS2C(S, ak.wireLen())
 		for _, port := range portSets[u.Ports] {
 			src := netip.AddrPortFrom(ak.ip(), port)
+			r.wantSrc = src
 			r.class = fmt.Sprintf("%s:%d", ak, port)
 			class := r.class
 			maxP := uMax - unf - unr
 			if C.Kind == kDirect {
 				maxP = recvSize
 			}
-			for _, pl := range lensFor(u.Lens, maxP) {
-				r.padLoop(func() int {
-					r.ord++
-					if r.done() {
-						return 0
-					}
-					r.res.Cases++
-					r.curCase = fmt.Sprintf("source=%s port=%d payloadLen=%d pad=%s", ak, port, pl, padName(hook.choice))
-					// 1. the upstream server replies
-					var pkt []byte
-					from := w.usAddr
-					if C.Kind == kDirect {
-						pkt, from = payloadRef[:pl], src
-					} else {
-						uhr := up.ServerPackerInfo().Headroom
-						ub := canaryBuf(scratchC, uhr.Front+pl+uhr.Rear)
-						copy(ub[uhr.Front:], payloadRef[:pl])
-						var ures packRes
-						withHookChoice(1, func() { ures = serverPack(up, ub, src, uhr.Front, pl, uMax) })
-						r.res.Ops++
-						if ures.err != nil || ures.panic != "" {
-							r.outcome(class, "ingress-not-sendable")
-							return 0
-						}
-						pkt = ub[ures.start : ures.start+ures.len]
-					}
-					n := len(pkt)
-					if n > recvSize {
-						r.outcome(class, "ingress-truncated-by-recv-size")
-						return 0
-					}
-					// 2. the relay's client unpacks in place
-					b := canaryBuf(scratchA, bufSize)
-					copy(b[hr.Front:], pkt)
-					ur := clientUnpack(w.Cc.sess.Unpacker, b, from, hr.Front, n)
+			var pl int
+			oneCase := func() int {
+				r.ord++
+				if r.done() {
+					return 0
+				}
+				r.res.Cases++
+				r.cs = caseDesc{"source", ak, port, pl, hook.choice}
+				// 1. the upstream server replies
+				var pkt []byte
+				from := w.usAddr
+				if C.Kind == kDirect {
+					pkt, from = payloadRef[:pl], src
+				} else {
+					uhr := up.ServerPackerInfo().Headroom
+					ub := canaryBuf(scratchC, uhr.Front+pl+uhr.Rear)
+					copy(ub[uhr.Front:], payloadRef[:pl])
+					var ures packRes
+					withHookChoice(1, func() { ures = serverPack(up, ub, src, uhr.Front, pl, uMax) })
 					r.res.Ops++
-					if !r.checkUnpacked("relay-downlink", C.Family, b, ur, hr.Front, n, pl, sameAddrPort(src, ur.src), ur.src.String(), src.String()) {
+					if ures.err != nil || ures.panic != "" {
+						r.outcome(class, "ingress-not-sendable")
 						return 0
 					}
-					// 3. the relay's server packs in place for the downstream client
-					hook.calls, hook.n = 0, 0
-					res := serverPack(sp, b, ur.src, ur.ps, ur.pl, maxClientPacketSize)
-					r.res.Ops++
-					consulted := 0
-					if hook.calls > 0 {
-						consulted = hook.n
-					}
-					if !r.checkPacked("relay-downlink", S.Family, b, res, ur.ps, ur.pl, snf, snr, sMax, spHR, hr.Front, hr.Front+n) {
+					pkt = ub[ures.start : ures.start+ures.len]
+				}
+				n := len(pkt)
+				if n > recvSize {
+					r.outcome(class, "ingress-truncated-by-recv-size")
+					return 0
+				}
+				// 2. the relay's client unpacks in place
+				b := canaryBuf(scratchA, bufSize)
+				copy(b[hr.Front:], pkt)
+				ur := clientUnpack(w.Cc.sess.Unpacker, b, from, hr.Front, n)
+				r.res.Ops++
+				if !r.checkUnpacked("relay-downlink", C.Family, b, ur, hr.Front, n, pl, sameAddrPort(src, ur.src)) {
+					return 0
+				}
+				// 3. the relay's server packs in place for the downstream client
+				hook.calls, hook.n = 0, 0
+				res := serverPack(sp, b, ur.src, ur.ps, ur.pl, maxClientPacketSize)
+				r.res.Ops++
+				consulted := 0
+				if hook.calls > 0 {
+					consulted = hook.n
+				}
+				if !r.checkPacked("relay-downlink", S.Family, b, res, ur.ps, ur.pl, snf, snr, sMax, spHR, hr.Front+n) {
+					return consulted
+				}
+				// 4. the downstream client unpacks
+				out := b[res.start : res.start+res.len]
+				if S.Kind == kDirect {
+					if !bytes.Equal(out, payloadRef[:pl]) {
+						r.violate("relay-downlink/payload-changed/packer=direct", func() string { return "the forwarded packet is not the payload" })
 						return consulted
 					}
-					// 4. the downstream client unpacks
-					out := b[res.start : res.start+res.len]
-					if S.Kind == kDirect {
-						if !bytes.Equal(out, payloadRef[:pl]) {
-							r.violate("relay-downlink/payload-changed/packer=direct", func() string { return "the forwarded packet is not the payload" })
-							return consulted
-						}
-						r.outcome(class, "relayed-ok")
-						r.sample(pl, min(maxP, sMax-snf-snr), res, map[string]any{"relay_buffer": fmt.Sprintf("front %d, recv %d, rear %d", hr.Front, recvSize, hr.Rear)})
-						return consulted
-					}
-					const at = 3
-					pb := canaryBuf(scratchB, at+len(out))
-					copy(pb[at:], out)
-					ur2 := clientUnpack(w.D.sess.Unpacker, pb, w.relayAddr, at, len(out))
-					r.res.Ops++
-					if r.checkUnpacked("relay-downlink-peer", S.Family, pb, ur2, at, len(out), pl, sameAddrPort(src, ur2.src), ur2.src.String(), src.String()) {
-						r.outcome(class, "relayed-ok")
-						r.sample(pl, min(maxP, sMax-snf-snr), res, map[string]any{"relay_buffer": fmt.Sprintf("front %d, recv %d, rear %d", hr.Front, recvSize, hr.Rear)})
+					r.outcome(class, "relayed-ok")
+					if mp := min(maxP, sMax-snf-snr); r.res.Sample == nil && pl == mp {
+						r.sample(pl, mp, res, map[string]any{"relay_buffer": fmt.Sprintf("front %d, recv %d, rear %d", hr.Front, recvSize, hr.Rear)})
 					}
 					return consulted
-				})
+				}
+				const at = 3
+				pb := canaryBuf(scratchB, at+len(out))
+				copy(pb[at:], out)
+				ur2 := clientUnpack(w.D.sess.Unpacker, pb, w.relayAddr, at, len(out))
+				r.res.Ops++
+				if r.checkUnpacked("relay-downlink-peer", S.Family, pb, ur2, at, len(out), pl, sameAddrPort(src, ur2.src)) {
+					r.outcome(class, "relayed-ok")
+					if mp := min(maxP, sMax-snf-snr); r.res.Sample == nil && pl == mp {
+						r.sample(pl, mp, res, map[string]any{"relay_buffer": fmt.Sprintf("front %d, recv %d, rear %d", hr.Front, recvSize, hr.Rear)})
+					}
+				}
+				return consulted
+			}
+			for _, pl = range lensFor(u.Lens, maxP) {
+				r.padLoop(oneCase)
 				if r.done() {
 					return
 				}
@@ -1595,9 +1707,10 @@ func buildTier(tier string) tierSpec {
 func runUnit(tier string, t tierSpec, idx int, stopAt int64, verbose bool) *unitResult {
 	start := time.Now()
 	u := t.units[idx]
-	r := &runner{tier: tier, u: u, idx: idx, stopAt: stopAt, verbose: verbose, seen: map[string]bool{},
+	r := &runner{tier: tier, u: u, idx: idx, stopAt: stopAt, verbose: verbose, seen: map[string]bool{}, classes: map[[2]string]int64{},
 		res: &unitResult{Idx: idx, Outcomes: map[string]int64{}, Classes: map[string]int64{}}}
 	installHooks()
+	defer runCleanups()
 	p := guard(func() {
 		switch u.Part {
 		case "A-c2s":
@@ -1615,6 +1728,9 @@ func runUnit(tier string, t tierSpec, idx int, stopAt int64, verbose bool) *unit
 	if p != "" {
 		// a panic outside the guarded calls: in a constructor or in the harness
 		r.violate("panic-outside-pack-unpack/"+u.Part, func() string { return "panic while building or driving the unit: " + p })
+	}
+	for k, v := range r.classes {
+		r.res.Classes[k[0]+"|"+k[1]] = v
 	}
 	r.res.Secs = time.Since(start).Seconds()
 	return r.res
@@ -1811,7 +1927,7 @@ func main() {
 		"downlink relay buffer = UDPRelayHeadroom(serverPacker.Headroom, clientUnpacker.Headroom).Front + clientSession.MaxPacketSize + .Rear and maxClientPacketSize = MaxPacketSizeForAddr(server MTU, client address): composed in the harness from the real functions exactly as the four relayNatConnToServerConn* loops do inline (they cannot be called without sockets)",
 		"a packet longer than the receive size is truncated by the kernel and dropped by the relay (MSG_TRUNC); such cases are counted, not judged",
 		"clients with 2..3 identity headers are checked against reference SIP022 relays (peel one header each, written in the harness) in front of the real multi-user server",
-		"not demanded: preservation of the IPv4-mapped form of an address (the SOCKS address format has no such form; the code documents the conversion): addresses are compared after Unmap; that padding is actually applied when the policy says so; contents of bytes inside the packer's declared headroom but outside the packet",
+		"not demanded: preservation of the IPv4-mapped form of an address (the SOCKS address format has no such form; the code documents the conversion): addresses are compared after Unmap; that padding is actually applied when the policy says so; contents of bytes in front of the payload (PackInPlace may use all of b[:payloadStart]; ss2022 pads into whatever room there is, beyond its declared 900-byte padding headroom) and inside the declared rear headroom",
 		"out of alphabet: direct client with domain targets (DNS), direct server with tunnelUDPTargetOnly (C18), transparent proxy relay, MTU > 65575 except edges in thorough",
 	}
 	c.Finish()
